@@ -34,8 +34,9 @@ let bytes_of_hex (h : string) : z list =
   let n = String.length h / 2 in
   List.init n (fun i -> zi (int_of_string ("0x" ^ String.sub h (2 * i) 2)))
 
-let bits_width = function "enum" | "float" -> 4 | "double" -> 8 | _ -> failwith "not a bits kind"
-let is_bits k = (k = "enum" || k = "float" || k = "double")
+(* ldouble: the 10 value bytes of an x87 long double (loads only: the 6 padding bytes of the 16-byte object are indeterminate) *)
+let bits_width = function "enum" | "float" -> 4 | "double" -> 8 | "ldouble" -> 10 | _ -> failwith "not a bits kind"
+let is_bits k = (k = "enum" || k = "float" || k = "double" || k = "ldouble")
 
 let show_res f = function Some (Ok v) -> "V " ^ f v | Some Abort -> "ABORT" | Some _ -> "OTHER" | None -> "NOCOMPILE"
 
